@@ -1238,6 +1238,8 @@ class BinaryOpUGen(BasicOpUGen):
 
     def _optimize_sub(self):
         a, b = self.inputs
+        if a is b:  # Non optimizable edge case (b can't be removed).
+            return
 
         if isinstance(b, UnaryOpUGen) and b.operator == 'neg'\
         and len(b._descendants) == 1:
